@@ -213,8 +213,7 @@ func (s *stream) get() *Event {
 
 	if event != nil {
 		s.awaySeq = event.SeqID
-		verifTrace("s.get", uint64(event.Offset), event.SeqID)
-		verifTrace("s.getof", uint64(s.streamID), verifStreamKey(s))
+		verifTraceGet(s, event)
 		event.stage = eventStageProcessor
 		s.len--
 	}
